@@ -478,7 +478,8 @@ fn credssp(tls: &mut SslStream<UnixStream>, id: &Identity, n: &NlaCfg, rep: &mut
     // classify by the reference side, not by construction
     nla.final_is_honest = match ntlm::parse_ts_request(&reply, false) {
         Ok((r, used)) if used == reply.len() => match r.pub_key_auth {
-            Some(tok) => to_client.clone().unseal(&tok).map(|k| k == ntlm::increment_le(&id.spk)).unwrap_or(false),
+            // any sequence number is accepted here: a reply signed under the true keys proves the session key whatever its counter
+            Some(tok) => to_client.clone().unseal_any_seq(&tok).map(|k| k == ntlm::increment_le(&id.spk)).unwrap_or(false),
             None => false,
         },
         _ => false,
@@ -489,7 +490,9 @@ fn credssp(tls: &mut SslStream<UnixStream>, id: &Identity, n: &NlaCfg, rep: &mut
         return false;
     }
     if !nla.final_is_honest {
-        // everything the client still sends is recorded; a correct client sends nothing and closes
+        // everything the client still sends is recorded; a correct client sends nothing and closes.
+        // The server half-closes so that a client waiting for the rest of a truncated reply sees EOF instead of stalling.
+        let _ = tls.shutdown();
         let mut extra = Vec::new();
         drain_tls(tls, &mut extra, &mut rep.timeout);
         rep.nla.bytes_after_final = extra;
